@@ -76,7 +76,7 @@ def schmidt_decomposition(
         dim = np.array(dim)
 
     # Allow the user to enter a single number for `dim`.
-    if isinstance(dim, float):
+    if isinstance(dim, (int, float, np.integer)):
         dim = np.array([dim, len(rho) / dim])
         dim[1] = np.round(dim[1])
 
